@@ -35,7 +35,7 @@ def qt(x):
     return int(round(float(x) / TQ))
 
 
-def write_table(path, rng, unity=False, expr=False, nd=3, ns=4):
+def write_table(path, rng, unity=False, expr=False, nd=3, ns=4, order=None):
     rows = ['Subfactor,Type,Coolant,Film,Cladding,Gap,Fuel']
     for i in range(nd):
         vals = [1.0 if unity else rng.choice([1.0, 1.0, rng.uniform(1.0, 1.3)])
@@ -59,6 +59,12 @@ def write_table(path, rng, unity=False, expr=False, nd=3, ns=4):
             cells[0] = '1.0 + 2.0 / dT'
             cells[1] = '1.0 + 2.0 / dT'
         rows.append(f'stat{i},Statistical,' + ','.join(cells))
+    if order is not None:
+        # direct and statistical rows in any order (the Type column says
+        # what a row is, not its place in the file)
+        body = rows[1:]
+        order.shuffle(body)
+        rows = [rows[0]] + body
     with open(path, 'w') as f:
         f.write('\n'.join(rows) + '\n')
 
@@ -123,7 +129,9 @@ def table_traces(args):
         for i in range(n):
             p = str(d / f't{i}.csv')
             write_table(p, rng, unity=(i == 0),
-                        expr=('repeat' if i % 3 == 1 else i % 3 == 2))
+                        expr=('repeat' if i % 3 == 1 else i % 3 == 2),
+                        order=(random.Random(seed * 31 + i)
+                               if i % 2 == 1 else None))
             tables.append((f'gen{seed}-{i}', p, i == 0))
         if seed % 4 == 0:
             root = os.path.join(os.path.dirname(dassh.__file__), 'data')
